@@ -196,6 +196,11 @@ def build_calls(d, dtype):
     calls["bistochastic.birkhoff_von_neumann[subclass]"] = (bi.birkhoff_von_neumann, [pu.ValuationProfile.of(np.array(X))])
     calls["bistochastic.birkhoff_von_neumann[fortran]"] = (bi.birkhoff_von_neumann, [np.asfortranarray(np.array(X))])
     calls["bistochastic.positivity_graph"] = (bi.positivity_graph, [X])
+    Xres = np.array(X, dtype=float)
+    Xres[0, 0] += 1e-17
+    Xres[-1, -1] = Xres[-1, -1] if Xres[-1, -1] != 0 else -0.0
+    Xres[0, -1] = Xres[0, -1] if Xres[0, -1] != 0 else 3e-17          # rounding residues as a decomposition loop leaves them behind
+    calls["bistochastic.positivity_graph[residues]"] = (bi.positivity_graph, [Xres])
     G = {int(k): [tuple(e) for e in v] for k, v in d["net"].items()}
     calls["flow.ford_fulkerson"] = (fl.ford_fulkerson, [G, d["s"], d["t"]])
     calls["flow.reachable_vertices"] = (fl.reachable_vertices, [G, d["s"]])
@@ -215,6 +220,8 @@ def build_calls(d, dtype):
     calls["utils.check_square_matrix"] = (ut.check_square_matrix, [X])
     calls["utils.check_tie_breaker"] = (ut.check_tie_breaker, ["first"])
     calls["utils.break_tie"] = (seeded(ut.break_tie), [np.array([1, 3, 4]), "random"])
+    calls["utils.break_tie[first,unsorted]"] = (ut.break_tie, [np.array([4, 1, 3]), "first"])
+    calls["utils.break_tie[accept,unsorted]"] = (ut.break_tie, [np.array([4, 1, 3]), "accept"])
     calls["distortion.distortion"] = (di.distortion, [np.array([1, 2]) if m >= 2 else 1, vp(valsv + 0.5)])
     calls["profile_utils.compute_ordinal_profile"] = (pu.compute_ordinal_profile, [pu.CompleteValuationProfile.of(np.array(d["distinct"], dtype=float))])
     calls["profile_utils.is_consistent_valuation_profile"] = (pu.is_consistent_valuation_profile, [vp(valsv), pu.Profile.of(Pv)])
